@@ -571,6 +571,10 @@ func c04EndRequest(r *core.Run, fi *core.FuncInfo) {
 			continue
 		}
 		okc := ex.St.Has("ok:send") || ex.St.Has("notlauncher")
+		if ex.Class == flow.ExitEither && (ex.OkImplies["ok:send"] || ex.OkImplies["notlauncher"]) {
+			// the error handed on is nil only for a participant / after a successful request
+			okc = true
+		}
 		r.Check(okc, "C04.surface", k, w.Pos(ex.Pos), "nil is returned only after a request succeeded (or for a participant)",
 			"a possibly-nil error is returned on a path where no request has succeeded (e.g. context already cancelled): silent success without asking the coordinator")
 	}
